@@ -70,6 +70,8 @@ pub enum Stream {
 	/// the listener turns its head between two orientations given by quaternions of either sign
 	/// (q and -q are the same rotation) while the emitter stays on its right
 	Turn { a_deg: f32, target: u8, dur_chunks: usize, ibs: usize },
+	/// listener, spatial track and sound added while the audio thread runs (c15_sched.rs)
+	Sched(super::c15_sched::SchedCase),
 	Nested { a: [f32; 3], b: [f32; 3], e1: [f32; 3], e2: [f32; 3], drop_a: Option<usize>, drop_b: Option<usize>, callbacks: usize, ibs: usize, mid_plain: bool },
 }
 
@@ -88,7 +90,9 @@ fn rand_quat(rng: &mut Rng) -> [f32; 4] {
 fn gen_case(seed: u64, index: u64, tier: Tier) -> Case {
 	let mut rng = Rng::new(seed);
 	let v3 = |rng: &mut Rng, r: f64| -> [f32; 3] { [rng.frange(-r, r) as f32, rng.frange(-r, r) as f32, rng.frange(-r, r) as f32] };
-	let stream = if index % 12 == 11 {
+	let stream = if index % 24 == 17 {
+		Stream::Sched(super::c15_sched::gen(&mut rng))
+	} else if index % 12 == 11 {
 		Stream::Turn {
 			a_deg: rng.frange(1.0, 35.0) as f32,
 			target: rng.below(3) as u8,
@@ -860,6 +864,7 @@ pub fn run_case(case: &Case) -> CaseResult {
 	let mut trace = Hasher64::new();
 	let mut beh = Hasher64::new();
 	match &case.stream {
+		Stream::Sched(sc) => return super::c15_sched::run(sc),
 		Stream::Turn { a_deg, target, dur_chunks, ibs } => {
 			run_turn(*a_deg, *target, *dur_chunks, *ibs, &mut res, &mut trace, &mut beh);
 			beh.u64(77);
@@ -891,7 +896,7 @@ impl Check for C15 {
 		CheckInfo {
 			id: "C15",
 			level: "exploration",
-			rule: "four streams. turn (1/12): the listener turns between two yaw angles given by quaternions of either sign (q / -q), instantly or over a few internal buffers, with the emitter on its right: every frame favours the right ear; nested (1/6): a spatial track (listener B) inside - directly or through a plain track - a spatial track (listener A) with a plain track below it, each with a FromListenerDistance probe, either listener dropped at a seeded callback; history (1/6): seeded history over {add listener (the first one gets a spatial track, optionally with a nested non-spatial child, each with a FromListenerDistance probe parameter and a DC sound), drop the listener, tween the listener position, tween the emitter position, callback} at a seeded internal buffer size - simulated on the device with a per-chunk reference of both positions; geometry (2/3): generated listener pose, emitter position, distance range (proper, equal, inverted, zero-based), attenuation curve, strength, edge classes (listener and emitter coincident; emitter exactly on one of the listener's ears), rendered through the manager and related to a second rendering (farther along the same ray, mirrored, rigidly moved, stereo input, the same scene with a linear roll-off) - plain input generation evaluated as cross-run invariants; non-trivial = every case renders; distinct = hash of the outputs / of the per-callback (listener present, chunks) sequence",
+			rule: "five streams. sched (1/24): a gameplay task adds a listener, a spatial track bound to it (optionally nested) and a sound while an audio task runs callbacks under seeded random schedules - the track must be audible afterwards; turn (1/12): the listener turns between two yaw angles given by quaternions of either sign (q / -q), instantly or over a few internal buffers, with the emitter on its right: every frame favours the right ear; nested (1/6): a spatial track (listener B) inside - directly or through a plain track - a spatial track (listener A) with a plain track below it, each with a FromListenerDistance probe, either listener dropped at a seeded callback; history (1/6): seeded history over {add listener (the first one gets a spatial track, optionally with a nested non-spatial child, each with a FromListenerDistance probe parameter and a DC sound), drop the listener, tween the listener position, tween the emitter position, callback} at a seeded internal buffer size - simulated on the device with a per-chunk reference of both positions; geometry (2/3): generated listener pose, emitter position, distance range (proper, equal, inverted, zero-based), attenuation curve, strength, edge classes (listener and emitter coincident; emitter exactly on one of the listener's ears), rendered through the manager and related to a second rendering (farther along the same ray, mirrored, rigidly moved, stereo input, the same scene with a linear roll-off) - plain input generation evaluated as cross-run invariants; non-trivial = every case renders; distinct = hash of the outputs / of the per-callback (listener present, chunks) sequence",
 			assumptions: vec![
 				"the geometric relations (monotonicity, ear gains, mirror, rigid motion, stereo pass-through) are input-generation checks, not schedule- or fault-dependent; they are included because the same harness renders them, and are stated as such".into(),
 				"tolerances: 1e-4 on gains, 2e-3 / 3e-3 for mirrored / moved scenes (f32 quaternion arithmetic), rigid-motion comparison skipped within 1e-3 of a distance limit".into(),
